@@ -644,6 +644,12 @@ class TemplateASTTransformer(ASTTransformer):
         return node
 
     def visit_Name(self, node):
+        if node.id in ('super', '__class__') and \
+                isinstance(node.ctx, _ast.Load) and not self._is_local(node.id) \
+                and [s for s in self.locals[:-1] if isinstance(s, _ClassScope)]:
+            # in a method the compiler provides the __class__ cell that a
+            # zero-argument super() needs only for a plain reference
+            return node
         # If the name refers to a local inside a lambda, list comprehension, or
         # generator expression, leave it alone
         if isinstance(node.ctx, _ast.Load) and not self._is_local(node.id):
